@@ -101,9 +101,22 @@ def or2xorCond (K : Kernel) (q : Quirks) (a0 a1 b0 b1 : BExp) (n0 n1 : Nat) : Bo
   (q.or2xorNoArity || (n0 == 2 && n1 == 2)) &&
   ((b0 == K.mkNot a0 && b1 == K.mkNot a1) || (K.mkNot b0 == a0 && K.mkNot b1 == a1))
 
+/-- the whole `if` of `transform_or2xor.visit_Or` on the argument list of the `Or`.  An `And` with
+fewer than two arguments (never built by sympy) makes the Python raise; here it is "no match". -/
+def or2xorTest (K : Kernel) (q : Quirks) : List BExp → Bool
+  | [.and (a0 :: a1 :: r0), .and (b0 :: b1 :: r1)] =>
+      or2xorCond K q a0 a1 b0 b1 (r0.length + 2) (r1.length + 2)
+  | _ => false
+
 mutual
 def or2xor (K : Kernel) (q : Quirks) : BExp → BExp
-  | .or l => or2xorOr K q l
+  | .or l =>
+      if or2xorTest K q l then
+        -- `a = visit(args[0].args[0]); b = visit(args[0].args[1]); Not(Xor(a, b))`
+        match or2xorKids K q l with
+        | (a :: b :: _) :: _ => K.mkNot (K.mkXor [a, b])
+        | _ => K.mkOr (or2xorList K q l)
+      else K.mkOr (or2xorList K q l)
   | .and l => K.mkAnd (or2xorList K q l)
   | .not e => K.mkNot (or2xor K q e)
   | .imp a b => K.mkImp (or2xor K q a) (or2xor K q b)
@@ -112,18 +125,16 @@ def or2xor (K : Kernel) (q : Quirks) : BExp → BExp
   | .tt => .tt
   | .ff => .ff
   | .sym n => .sym n
-/-- `visit_Or` on the argument list -/
-def or2xorOr (K : Kernel) (q : Quirks) : List BExp → BExp
-  | [.and (a0 :: a1 :: r0), .and (b0 :: b1 :: r1)] =>
-      if or2xorCond K q a0 a1 b0 b1 (r0.length + 2) (r1.length + 2) then
-        K.mkNot (K.mkXor [or2xor K q a0, or2xor K q a1])
-      else
-        K.mkOr [K.mkAnd (or2xor K q a0 :: or2xor K q a1 :: or2xorList K q r0),
-                K.mkAnd (or2xor K q b0 :: or2xor K q b1 :: or2xorList K q r1)]
-  | l => K.mkOr (or2xorList K q l)
 def or2xorList (K : Kernel) (q : Quirks) : List BExp → List BExp
   | [] => []
   | e :: es => or2xor K q e :: or2xorList K q es
+/-- the visited arguments of each disjunct that is an `And` (`[]` for the others) -/
+def or2xorKids (K : Kernel) (q : Quirks) : List BExp → List (List BExp)
+  | [] => []
+  | e :: es => or2xorKid K q e :: or2xorKids K q es
+def or2xorKid (K : Kernel) (q : Quirks) : BExp → List BExp
+  | .and m => or2xorList K q m
+  | _ => []
 end
 
 /-! ## `transform_or2and`: an `Or` with more than two arguments (or any, when `DISABLE_OR`) becomes
